@@ -1841,22 +1841,33 @@ where
     let mut open_doc = allocator.nil();
     let mut close_doc = allocator.nil();
     let mut found_open = false;
+    // Brackets opened inside the list: a parenthesised type has no node of its own, the parentheses
+    // of `((float), float)` are children of the tuple type. They belong to the item they enclose.
+    let mut depth = 0usize;
 
     for &child in children.iter() {
         let node = ctx.arena.get(child);
         if let mimium_lang::compiler::parser::green::GreenNode::Token { token_index, .. } = node {
             let token = &ctx.tokens[*token_index];
             match token.kind {
+                TokenKind::ParenBegin | TokenKind::BlockBegin | TokenKind::ArrayBegin
+                    if found_open =>
+                {
+                    depth += 1;
+                }
                 TokenKind::ParenBegin | TokenKind::BlockBegin | TokenKind::ArrayBegin => {
                     open_doc = emit_token_with_trivia(*token_index, ctx, allocator);
                     found_open = true;
                     continue;
                 }
+                TokenKind::ParenEnd | TokenKind::BlockEnd | TokenKind::ArrayEnd if depth > 0 => {
+                    depth -= 1;
+                }
                 TokenKind::ParenEnd | TokenKind::BlockEnd | TokenKind::ArrayEnd => {
                     close_doc = emit_token_with_trivia(*token_index, ctx, allocator);
                     continue;
                 }
-                TokenKind::Comma => {
+                TokenKind::Comma if depth == 0 => {
                     // The comma is re-created with proper breaking; the comments attached to it
                     // stay around it (`a /* x */, // y`), so that a second formatting finds them
                     // attached to the same token.
@@ -2719,6 +2730,19 @@ mod tests {
         let first = format("let t = (1 /* b */ , // c\n)");
         assert_eq!(first, "let t = (1 /* b */ , // c\n)\n");
         assert_eq!(format(&first), first);
+    }
+
+    #[test]
+    fn test_parenthesised_type_in_tuple_and_record_type() {
+        let src = "fn z(f:( /* c */ (float) /* d */ , float)->float){\n    1\n}\n";
+        let first = format(src);
+        assert_eq!(
+            first,
+            "fn z(f:( /* c */ (float) /* d */ , float)->float){\n    1\n}\n"
+        );
+        assert_eq!(format(&first), first);
+        let first = format("fn z(r:{a:(float), b:((float)->float)}){\n    1\n}\n");
+        assert_eq!(first, "fn z(r:{a:(float), b:((float)->float)}){\n    1\n}\n");
     }
 
     // ========================================================================
